@@ -104,9 +104,9 @@ fn writer_case_json(c: &WriterCase, k: usize, f: Fault, persistent: bool, stop: 
 /// One faulted writer run checked against the fault-free reference. Returns (fingerprint suffix, message).
 #[allow(clippy::too_many_arguments)]
 fn check_writer(c: &WriterCase, r: &WriterRef, k: usize, f: Fault, persistent: bool, stop: bool, g: usize, second: Option<usize>) -> (Option<(String, String)>, String, bool) {
-    let (res, bytes, _calls) = run_case2(c, Plan { at: k, fault: f, persistent }, second, stop, g);
+    let (res, bytes, _calls, nfired) = run_case2(c, Plan { at: k, fault: f, persistent }, second, stop, g);
     let class = res.class();
-    let fired = true;
+    let fired = nfired > 0;
     if let Some((step, p)) = res.panic() {
         let kind = if p == "HANG" { "hang".to_string() } else { p.to_string() };
         return (Some((format!("{}:{step}:{kind}", c.name), format!("step {step} of {} panicked/hung: {p}; steps={:?}", c.name, res.steps))), class, fired);
@@ -357,7 +357,7 @@ fn replay(case: &Value) -> ! {
             let r = WriterRef { sync: if c.deterministic { vec![] } else { avro_sync_positions(&bytes) }, bytes, calls: vec![calls] };
             let (k, f, p, stop) = (case["call"].as_u64().unwrap() as usize, fault_of(case["fault"].as_str().unwrap()), case["persistent"].as_bool().unwrap(), case["stop_at_error"].as_bool().unwrap());
             let second = case["second_fault_call"].as_u64().map(|x| x as usize);
-            let (res, got, _) = run_case2(c, Plan { at: k, fault: f, persistent: p }, second, stop, g);
+            let (res, got, _, _) = run_case2(c, Plan { at: k, fault: f, persistent: p }, second, stop, g);
             println!("expectation: every call returns (no panic, no hang); all Ok => sink content equals the {} fault-free bytes; bytes accepted before the first error are a prefix of them ({} sink calls fault-free)", r.bytes.len(), calls);
             println!("observation: steps={:?} accepted={} bytes", res.steps, got.len());
             let (v, _, _) = check_writer(c, &r, k, f, p, stop, g, second);
@@ -486,8 +486,8 @@ pub fn run(ctx: &Ctx) -> ! {
         k /= 2;
         let (f, persistent) = wmenu[k % wmenu.len()];
         let call = k / wmenu.len();
-        let (v, class, _) = check_writer(c, r, call, f, persistent, stop, g, None);
-        st.add(&format!("writer:{}", c.name), 1, 1);
+        let (v, class, fired) = check_writer(c, r, call, f, persistent, stop, g, None);
+        st.add(&format!("writer:{}", c.name), 1, fired as u64);
         st.outcome(&format!("writer:{}", class));
         if let Some((fp, m)) = v {
             st.violate(idx, format!("c18:{fp}"), format!("{} call {call} fault {} persistent={persistent} stop_at_error={stop} max_bytes_per_call={}: {m}", c.name, fault_name(f), if g == usize::MAX { 0 } else { g }), || writer_case_json(c, call, f, persistent, stop, g, None));
@@ -530,8 +530,8 @@ pub fn run(ctx: &Ctx) -> ! {
                 k1 += 1;
             }
             let k2 = k1 + 1 + k;
-            let (v, class, _) = check_writer(c, r, k1 as usize, f, false, stop, usize::MAX, Some(k2 as usize));
-            st.add(&format!("writer-pairs:{}", c.name), 1, 1);
+            let (v, class, fired) = check_writer(c, r, k1 as usize, f, false, stop, usize::MAX, Some(k2 as usize));
+            st.add(&format!("writer-pairs:{}", c.name), 1, fired as u64);
             st.outcome(&format!("writer:{}", class));
             if let Some((fp, m)) = v {
                 st.violate(base + idx, format!("c18:{fp}"), format!("{} calls {k1} ({}) and {k2} (err-other) stop_at_error={stop}: {m}", c.name, fault_name(f)), || writer_case_json(c, k1 as usize, f, false, stop, usize::MAX, Some(k2 as usize)));
@@ -628,7 +628,7 @@ pub fn run(ctx: &Ctx) -> ! {
         ctx,
         Level {
             category: "fault_enumeration",
-            rule: "complete products: writers = (writer script) x (device granularity: unbounded | at most 13 bytes per call) x (every sink call index k < n of the fault-free run) x (fault menu, once/persistent) x (stop at the first reported error | continue the script); readers = (reader) x (device granularity) x (every read call index k < n) x (fault menu); truncation = (file) x (reader of that format) x (every prefix length 0..=len; CSV: every record boundary). Every tuple is a distinct case; a faulted case is non-trivial when the planned call index exists in the run (writers: always, k < n by construction; readers: the fault fired), a truncation case when the prefix is proper".into(),
+            rule: "complete products: writers = (writer script) x (device granularity: unbounded | at most 13 bytes per call) x (every sink call index k < n of the fault-free run) x (fault menu, once/persistent) x (stop at the first reported error | continue the script); readers = (reader) x (device granularity) x (every read call index k < n) x (fault menu); truncation = (file) x (reader of that format) x (every prefix length 0..=len; CSV: every record boundary). Every tuple is a distinct case; a faulted case is non-trivial when an injected fault actually fired (e.g. a short write planned on a flush call does not), a truncation case when the prefix is proper".into(),
             assumptions: vec![
                 "persistent Interrupted on a sink is excluded: std::io::Write::write_all is specified to retry Interrupted, so such a sink blocks any correct writer".into(),
                 "a spurious Ok(0) from a source followed by more data (Zero once) is excluded: Read documents Ok(0) as end of file; Zero is only injected persistently (= the file ends at that call)".into(),
